@@ -251,7 +251,7 @@ fn base_scen(family: &str) -> Scen {
 fn s(x: &str) -> String { x.to_string() }
 
 pub fn gen_scen(rng: &mut Rng, _thorough: bool) -> Scen {
-    let fam = rng.below(16);
+    let fam = rng.below(18);
     let nc = 1 + rng.below(4) as usize;
     match fam {
         0 | 1 => {
@@ -336,7 +336,7 @@ pub fn gen_scen(rng: &mut Rng, _thorough: bool) -> Scen {
             sc.expect = json!({"exit": "fail", "survivors": 0, "stdoutLines": 0, "diagFiles": sc.out_dir == 1, "maxStartsAfterFailure": nc});
             sc
         }
-        8 => {
+        8 | 16 | 17 => {
             // per-evaluation time limit: slow ones are killed with their group and counted as rejected
             let n = 2 + rng.below(5) as usize;
             if rng.chance(1, 6) {
@@ -348,7 +348,17 @@ pub fn gen_scen(rng: &mut Rng, _thorough: bool) -> Scen {
                 sc.expect = json!({"exit": "fail", "starts": n, "survivors": 0, "stdoutLines": 0});
                 return sc;
             }
+            if rng.chance(1, 6) {
+                // the largest limit the option accepts: nothing is ever killed, the run is an ordinary budget run
+                let mut sc = base_scen("kill-huge");
+                sc.opts = vec![s("-n"), n.to_string(), s("-k"), s(*rng.pick(&["18446744073709551615s", "18446744073709551615ms"])), s("--num-concurrent"), (1 + rng.below(2)).to_string()];
+                sc.plan = json!({"default": {"value_of_seed": "neg", "sleep_ms": 30}});
+                sc.expect = json!({"exit": "ok", "starts": n, "survivors": 0, "accepted": n, "rejected": 0});
+                return sc;
+            }
             let mut sc = base_scen("kill-after");
+            // with or without an output directory (detailed reporting on): a rejected record must not stop the run
+            sc.out_dir = *rng.pick(&[0, 1]);
             sc.opts = vec![s("-n"), n.to_string(), s("-k"), s("1200ms"), s("--num-concurrent"), (1 + rng.below(2)).to_string()];
             let mut seeds = serde_json::Map::new();
             let mut slow = 0;
